@@ -859,6 +859,14 @@ func (join *invertibleTypeJoin) invertJoinDirectionWithIndex(
 	// replace child's filter with the filter that utilizes the index
 	// the original child's filter is stored in join.subFilter
 	childScan.filter = fieldFilter
+	if fieldFilter != nil && join.subFilter != nil && !join.parentSide.relFieldDef.Value().Kind.IsArray() {
+		// The related object is a single document. One that does not pass the filter of its own selection
+		// counts as missing for the relation filter of the host, and a missing related document never
+		// satisfies a filter for which the join is inverted: the child documents that drive the join now
+		// must pass the child's own filter as well. (For a list of related documents join.subFilter is
+		// applied when the list is collected. A copy: the lookups of primary documents change it in place.)
+		childScan.filter = filter.Merge(fieldFilter, &mapper.Filter{Conditions: filter.Copy(join.subFilter.Conditions)})
+	}
 	childScan.index = immutable.Some(index)
 	childScan.ordering = ordering
 	childScan.initFetcher(immutable.Option[string]{})
